@@ -87,7 +87,7 @@ func init() {
 	// ------------------------------------------------------------------ C05
 	register(&Prop{
 		ID: "C05", Level: "exploration", QuickS: 25, ThoroughS: 420,
-		Rule: "seeded simple-query histories (1-6 Query messages, pipelined / one per quiescence point / grouped, random segmentation) whose query texts map to generated handler programs (parser error, 0/1/many statements, 0-4 typed columns, good / wrong-arity / unencodable rows, Written() reads, Complete, calls after completion, error return at any position); non-trivial = at least one result-writer operation was executed and judged; distinct = distinct case content hashes",
+		Rule:       "seeded simple-query histories (1-6 Query messages, pipelined / one per quiescence point / grouped, random segmentation) whose query texts map to generated handler programs (parser error, 0/1/many statements, 0-4 typed columns, good / wrong-arity / unencodable rows, Written() reads, Complete, calls after completion, error return at any position); non-trivial = at least one result-writer operation was executed and judged; distinct = distinct case content hashes",
 		Components: e1Components, Assumptions: commonAssumptions,
 		Gen: func(r *Rand, tier string) *Case {
 			c := &Case{Server: ServerCfg{Limit: smallLimit(r)}}
@@ -108,7 +108,7 @@ func init() {
 	// ------------------------------------------------------------------ C06
 	register(&Prop{
 		ID: "C06", Level: "exploration", QuickS: 25, ThoroughS: 420,
-		Rule: "seeded histories of Parse/Bind/Describe/Execute/Close/Flush/Sync over <=3 statement and <=3 portal names (incl. the empty name and names never defined) interleaved with simple queries, oversized and unknown messages, parsers and statement functions scripted to fail; delivered pipelined, one message per quiescence point, or grouped; judged message by message against the reference model with discard-until-Sync, including that each designated reply is on the wire when the server next waits for input; non-trivial = an ErrorResponse occurred and at least one later message of the same batch was judged; distinct = distinct case content hashes",
+		Rule:       "seeded histories of Parse/Bind/Describe/Execute/Close/Flush/Sync over <=3 statement and <=3 portal names (incl. the empty name and names never defined) interleaved with simple queries, oversized and unknown messages, parsers and statement functions scripted to fail; delivered pipelined, one message per quiescence point, or grouped; judged message by message against the reference model with discard-until-Sync, including that each designated reply is on the wire when the server next waits for input; non-trivial = an ErrorResponse occurred and at least one later message of the same batch was judged; distinct = distinct case content hashes",
 		Components: e1Components, Assumptions: commonAssumptions,
 		Gen: func(r *Rand, tier string) *Case {
 			c := &Case{Server: ServerCfg{Limit: smallLimit(r)}}
@@ -131,7 +131,7 @@ func init() {
 	// ------------------------------------------------------------------ C13
 	register(&Prop{
 		ID: "C13", Level: "exploration", QuickS: 25, ThoroughS: 420,
-		Rule: "seeded COPY-in histories: a statement starts COPY (text or binary, 1-4 columns) and follows a scripted read plan (read k chunks and complete / fail after k chunks / read to the end and report the outcome); the client follows CopyInResponse with sequences over CopyData(0..300 bytes)/CopyDone/CopyFail/Flush/Sync/foreign messages, plus stray COPY messages outside COPY mode, in simple and extended protocol; non-trivial = a CopyInResponse was sent and the handler observed at least one COPY read outcome; distinct = distinct case content hashes",
+		Rule:       "seeded COPY-in histories: a statement starts COPY (text or binary, 1-4 columns) and follows a scripted read plan (read k chunks and complete / fail after k chunks / read to the end and report the outcome); the client follows CopyInResponse with sequences over CopyData(0..300 bytes)/CopyDone/CopyFail/Flush/Sync/foreign messages, plus stray COPY messages outside COPY mode, in simple and extended protocol; non-trivial = a CopyInResponse was sent and the handler observed at least one COPY read outcome; distinct = distinct case content hashes",
 		Components: e1Components, Assumptions: commonAssumptions,
 		Gen: func(r *Rand, tier string) *Case {
 			c := &Case{Server: ServerCfg{Limit: smallLimit(r)}}
@@ -160,7 +160,7 @@ func init() {
 	// ------------------------------------------------------------------ C08
 	register(&Prop{
 		ID: "C08", Level: "exploration", QuickS: 25, ThoroughS: 420,
-		Rule: "seeded extended-protocol histories over statements with 0-5 declared parameter types and typed columns: Bind messages with NULL / empty / NUL-containing / multi-KiB values, parameter-format lists of length 0, 1 and n, result-format lists of length 0, 1 and n, and 0-3 other messages (Describe, Parse of other names with long texts, simple queries, stray CopyData) between Bind and Execute; the statement function records count, Value(), Format() and Scan(declared oid) of every parameter; compared with the reference model and the independent codecs, including the RowDescription/DataRow formats of the portal and the ParameterDescription of the statement; non-trivial = a statement function ran with at least one parameter; distinct = distinct case content hashes",
+		Rule:       "seeded extended-protocol histories over statements with 0-5 declared parameter types and typed columns: Bind messages with NULL / empty / NUL-containing / multi-KiB values, parameter-format lists of length 0, 1 and n, result-format lists of length 0, 1 and n, and 0-3 other messages (Describe, Parse of other names with long texts, simple queries, stray CopyData) between Bind and Execute; the statement function records count, Value(), Format() and Scan(declared oid) of every parameter; compared with the reference model and the independent codecs, including the RowDescription/DataRow formats of the portal and the ParameterDescription of the statement; non-trivial = a statement function ran with at least one parameter; distinct = distinct case content hashes",
 		Components: e1Components, Assumptions: commonAssumptions,
 		Gen: func(r *Rand, tier string) *Case {
 			c := &Case{Server: ServerCfg{Limit: r.PickInt(4096, 16384, 65536, 65536)}}
@@ -183,7 +183,7 @@ func init() {
 	// ------------------------------------------------------------------ C09
 	register(&Prop{
 		ID: "C09", Level: "exploration", QuickS: 25, ThoroughS: 420,
-		Rule: "seeded sessions whose statements write rows over bool/int2/int4/int8/oid/float4/float8/text/varchar/bytea/uuid/date/timestamp/timestamptz columns with boundary and random values (min/max, +-0, NaN, +-Inf, empty and multi-byte strings, empty and NUL-containing bytea, zero UUID) in the Go representations a handler would use (native values, pointers, pgtype structs), text format (simple protocol) and per-column text/binary result formats (extended protocol), SQL NULL written as untyped nil, typed nil pointer or invalid pgtype value in any position; the same OID is encoded from different Go types in varying order within a connection; every DataRow is decoded by the independent codecs; non-trivial = at least one DataRow was produced and decoded; distinct = distinct case content hashes",
+		Rule:       "seeded sessions whose statements write rows over bool/int2/int4/int8/oid/float4/float8/text/varchar/bytea/uuid/date/timestamp/timestamptz columns with boundary and random values (min/max, +-0, NaN, +-Inf, empty and multi-byte strings, empty and NUL-containing bytea, zero UUID) in the Go representations a handler would use (native values, pointers, pgtype structs), text format (simple protocol) and per-column text/binary result formats (extended protocol), SQL NULL written as untyped nil, typed nil pointer or invalid pgtype value in any position; the same OID is encoded from different Go types in varying order within a connection; every DataRow is decoded by the independent codecs; non-trivial = at least one DataRow was produced and decoded; distinct = distinct case content hashes",
 		Components: e1Components, Assumptions: commonAssumptions,
 		Gen: func(r *Rand, tier string) *Case {
 			c := &Case{Server: ServerCfg{Limit: smallLimit(r)}}
@@ -204,7 +204,7 @@ func init() {
 	// ------------------------------------------------------------------ C18
 	register(&Prop{
 		ID: "C18", Level: "exploration", QuickS: 25, ThoroughS: 420,
-		Rule: "seeded sessions in which every callback retains what it is given (validator: database/user/password strings; parser: query string; statement functions: Parameter.Value() slices and the client-parameter strings) together with a private deep copy taken at receipt; the rest of the session stresses read-buffer reuse: messages of body size 1, 4090..4100, 8191/8192, L-5, L-1, L, oversized messages skipped in several chunks, stray CopyData of those sizes, COPY streams, long runs of small messages; after every later callback and at connection end each retained value must equal its copy; a pass-through auth strategy watches cap(Reader.Msg) so that the probes reset_reused_tail / reset_reallocated show the mechanism was reached; non-trivial = at least one value was retained and at least two later messages were processed; distinct = distinct case content hashes",
+		Rule:       "seeded sessions in which every callback retains what it is given (validator: database/user/password strings; parser: query string; statement functions: Parameter.Value() slices and the client-parameter strings) together with a private deep copy taken at receipt; the rest of the session stresses read-buffer reuse: messages of body size 1, 4090..4100, 8191/8192, L-5, L-1, L, oversized messages skipped in several chunks, stray CopyData of those sizes, COPY streams, long runs of small messages; after every later callback and at connection end each retained value must equal its copy; a pass-through auth strategy watches cap(Reader.Msg) so that the probes reset_reused_tail / reset_reallocated show the mechanism was reached; non-trivial = at least one value was retained and at least two later messages were processed; distinct = distinct case content hashes",
 		Components: e1Components, Assumptions: commonAssumptions,
 		Gen: func(r *Rand, tier string) *Case {
 			c := &Case{Server: ServerCfg{Limit: r.PickInt(4096, 5000, 8192, 16384, 65536)}}
@@ -226,8 +226,8 @@ func init() {
 	// ------------------------------------------------------------------ C07
 	register(&Prop{
 		ID: "C07", Level: "exploration", QuickS: 25, ThoroughS: 420,
-		Rule: "seeded histories of Parse/Bind/Describe/Execute/Close over a pool of 3 statement and 3 portal names (incl. the unnamed ones); every Parse carries a unique query text, parameter list and column set so that each later Describe/Execute is attributable to exactly one definition; judged against the per-connection two-map namespace model (statement current at Bind time, Bind's parameters and result formats, Close removes); E2 variant: 2-3 connections run such histories over the same names under seeded schedules and each must equal its own model run; non-trivial = a name was re-used (re-parsed / re-bound / closed) before a later use; distinct = distinct case content hashes",
-		Components: append(append([]string{}, e1Components...), "E2 share: seeded scheduler (harness/kernel.go) decides every interleaving of the connection goroutines at transport operations, callbacks and spliced schedule points"),
+		Rule:        "seeded histories of Parse/Bind/Describe/Execute/Close over a pool of 3 statement and 3 portal names (incl. the unnamed ones); every Parse carries a unique query text, parameter list and column set so that each later Describe/Execute is attributable to exactly one definition; judged against the per-connection two-map namespace model (statement current at Bind time, Bind's parameters and result formats, Close removes); E2 variant: 2-3 connections run such histories over the same names under seeded schedules and each must equal its own model run; non-trivial = a name was re-used (re-parsed / re-bound / closed) before a later use; distinct = distinct case content hashes",
+		Components:  append(append([]string{}, e1Components...), "E2 share: seeded scheduler (harness/kernel.go) decides every interleaving of the connection goroutines at transport operations, callbacks and spliced schedule points"),
 		Assumptions: commonAssumptions,
 		Gen: func(r *Rand, tier string) *Case {
 			if r.Chance(1, 5) {
